@@ -44,6 +44,8 @@ CHECKS = {
             "Model-derived exhaustive case generation: for every input of the bounded pattern grammar and every argument tuple of the finite domain the macro's accept/reject (diagnostics off and on) must equal the model's, and rustc's own match must agree with the model (three-way). Found and led to the fix of the unparenthesised-guard defect."),
     "C19": ("exploration", "3.6, 3.7, 6/C19", "Shapes.tla RenderArg/CallText/PatSrc and Matching.tla MismatchPositions enumerated by TLC; generated traits and scenarios per (shape, error kind); panic messages parsed structurally",
             "Model-derived exhaustive case generation: method shapes x ten error scenarios with pairwise-distinct argument values (call rendering, '?' for non-Debug, pattern source text and file:line), and for every guard-free single-alternative pattern of the Matching grammar x every rejected tuple the exact set of reported argument positions."),
+    "C05": ("exploration", "3.7, 6/C05", "Shapes.tla Forward (valid shapes and expected matcher view / answer view / write-back / return) enumerated by TLC; one generated #[unimock] trait per shape with recording matcher guard and answer, sync and async scenarios",
+            "Model-derived case generation over receiver x parameter list x return kind x async form x api form x method generics with pairwise-distinct values; quick = seeded pairwise-covering subset, thorough = up to 2500 shapes; async shapes check evaluation at first poll only and not at all when dropped unpolled."),
 }
 
 NOT_YET = {
